@@ -1,7 +1,9 @@
 """C22 Token-aware plans put live local replicas first without losing hosts.
 
 Engine N: real `TokenAwarePolicy(child)` objects over a real `Metadata`/token map (the rings,
-layouts and replication settings of C26, <=4/5 hosts), crossed with host up/down states, the
+layouts and replication settings of C26, <=4/5 hosts; the cluster's partitioner is Murmur3Partitioner,
+RandomPartitioner or ByteOrderedPartitioner, the routing keys cover both halves of each raw hash
+range and the expected replicas come from the reference token of `vt.spec.partitioners`), crossed with host up/down states, the
 child policy (RoundRobinPolicy, DCAwareRoundRobinPolicy in several configurations, a scripted
 policy with every distance map and several fixed plans), one routing key per token range, the
 shuffle flag (`cassandra.policies.shuffle` rebound: every permutation is applied in turn) and where
@@ -12,12 +14,13 @@ import itertools
 
 from vt.core import Part, HarnessError
 from vt.spec import placement as PL
+from vt.spec import partitioners as P
 from checks import c26
 
 META = {
     'level': 'exploration',
     'engine': 'N',
-    'technique': 'exhaustive enumeration of rings x host states x child policies x keys x shuffle permutations vs plan prescribed by the statement',
+    'technique': 'exhaustive enumeration of rings x partitioners x host states x child policies x keys x shuffle permutations vs plan prescribed by the statement',
     'text': 'Rings (all token assignments of <=3 hosts x <=2 tokens, 4 hosts x 1 token; thorough adds 5 hosts x 1 token and single-DC 4 hosts x <=2 tokens; '
             'scripted child: <=3 hosts x 1 token, thorough adds 4 hosts x 1 token and single-DC 3 hosts x <=2 tokens) x all '
             'DC/rack layouts (<=2 DCs x <=3 racks) x SimpleStrategy rf 1-3 and NetworkTopologyStrategy settings x host states (every up/down-announced combination, plus each '
@@ -32,7 +35,14 @@ META = {
             'point; two steps (quick: rings of <=4 tokens) over the first four settings through targeted and full refresh; plans for one key per '
             'token range (children RoundRobin and DCAwareRoundRobin(dc0, 1), all hosts up) are requested after every subset of the intermediate '
             'steps and always at the end, and for a bystander keyspace (RoundRobin child) at the end; the oracle uses the replication settings in force at that '
-            'point (a dropped keyspace owes the wrapped plan unchanged).  Oracle: plan == [replicas of the '
+            'point (a dropped keyspace owes the wrapped plan unchanged); plus the partitioner family on every ring x layout of the real-children '
+            'family: the token map is built for Murmur3Partitioner, RandomPartitioner and ByteOrderedPartitioner with ring tokens spread over the '
+            'whole token range (both signs of murmur3 tokens, first key bytes below and from 0x80 for byte-ordered tokens), routing keys = for each of the n+1 '
+            'token ranges (before the first token, between neighbours, beyond the last token = wrap-around) one key of each half of the raw hash range '
+            'that occurs there (md5 digest with the top bit clear / set, murmur3 hash >= 0 / < 0, first key byte < / >= 0x80) plus the key sitting '
+            'exactly on each ring token, x all replication settings x children RoundRobin and DCAwareRoundRobin(dc0) x all hosts up / each single host '
+            'down (announced or not yet), unshuffled; the replicas owed first are computed from the reference partitioner\'s token of the key '
+            '(vt.spec.partitioners), never from the driver\'s token.  Oracle: plan == [replicas of the '
             'key (independent placement reference) that are up and LOCAL for the child, in ring (or permuted) order] ++ [the child\'s recorded plan '
             'minus those], nothing repeated, nothing of the child\'s plan missing.',
     'note': 'Distances and the wrapped plan are inputs of the property and are read from the child (recording proxy). Ring order of '
@@ -136,6 +146,85 @@ def settings_for(per_dc):
     return out
 
 
+# ------------------------------------------------------------------------------------ partitioners
+PARTITIONER_FAMILIES = ('murmur3', 'md5', 'bytes')
+_pool_cache = {}
+
+
+def key_pool(tclass):
+    """candidate routing keys sorted by their *reference* token (vt.spec.partitioners), with the half of the raw hash
+    range each falls in.  ByteOrderedPartitioner tokens are the keys themselves: first bytes on both sides of 0x80."""
+    if tclass not in _pool_cache:
+        if tclass == 'bytes':
+            raw = [bytes([b]) + b'-%d' % i for b in (0x00, 0x21, 0x6b, 0x7f, 0x80, 0xa5, 0xff) for i in range(24)]
+        else:
+            raw = [b'key-%d' % i for i in range(160)]
+        fn = {'murmur3': P.murmur3_token, 'md5': P.md5_token, 'bytes': P.bytes_token}[tclass]
+        srt = sorted((fn(k), k) for k in raw)
+        if len(set(t for t, _ in srt)) != len(srt):
+            raise HarnessError('token collision among the candidate keys')
+        _pool_cache[tclass] = [(t, k, P.hash_half(tclass, k)) for t, k in srt]
+    return _pool_cache[tclass]
+
+
+def ring_and_keys(tclass, n):
+    """-> (n ring tokens spread evenly over the sorted candidate pool, so that the ring spans both halves of the token range;
+    routing keys [(reference token, key, kind)]: for each of the n+1 ranges (before the first token, between neighbours,
+    after the last token = wrap-around) the first candidate of each hash half, and the candidate sitting exactly on each
+    ring token)"""
+    pool = key_pool(tclass)
+    m = len(pool)
+    pos = [(2 * j + 1) * m // (2 * n) for j in range(n)]
+    ring_tokens = [pool[i][0] for i in pos]
+    keys = []
+    bounds = [-1] + pos + [m]
+    for r in range(n + 1):
+        seen = set()
+        for i in range(bounds[r] + 1, bounds[r + 1]):
+            t, k, half = pool[i]
+            if half not in seen:
+                seen.add(half)
+                keys.append((t, k, 'range%d/half%d' % (r, half)))
+        if r < n:
+            t, k, half = pool[pos[r]]
+            keys.append((t, k, 'on-token%d/half%d' % (r, half)))
+    halves = set(kind.rsplit('/', 1)[1] for _, _, kind in keys)
+    if halves != {'half0', 'half1'}:
+        raise HarnessError('routing keys of %s cover only %r' % (tclass, halves))
+    if tclass != 'md5' and len(set(P.hash_half(tclass, pool[i][1]) for i in pos)) != 2 and n > 1:
+        raise HarnessError('ring tokens of %s lie in one half of the token range' % tclass)
+    return ring_tokens, keys
+
+
+class PWorld(object):
+    """c26.World for any partitioner with the ring and routing keys of ring_and_keys(): real Metadata + token map"""
+    def __init__(self, seq, locs, tclass, settings):
+        from cassandra.metadata import Metadata, KeyspaceMetadata
+        from cassandra.pool import Host
+        from cassandra.policies import SimpleConvictionPolicy
+        n = len(seq)
+        ring_tokens, self.routing_keys = ring_and_keys(tclass, n)
+        self.tclass = tclass
+        self.nhosts = max(seq) + 1
+        self.names = ['h%d' % i for i in range(self.nhosts)]
+        self.hosts = [Host('10.0.0.%d' % (i + 1), SimpleConvictionPolicy, locs[i][0], locs[i][1]) for i in range(self.nhosts)]
+        self.name_of = dict((h, nm) for h, nm in zip(self.hosts, self.names))
+        self.ring = [(ring_tokens[i], self.names[seq[i]]) for i in range(n)]      # reference view
+        self.locs = dict((self.names[i], locs[i]) for i in range(self.nhosts))
+        tm = {}
+        for i in range(n):
+            tm.setdefault(self.hosts[seq[i]], []).append(c26.token_string(tclass, ring_tokens[i]))
+        self.metadata = Metadata()
+        for h in self.hosts:
+            self.metadata.add_or_return_host(h)
+        self.metadata.rebuild_token_map(c26.PARTITIONERS[tclass], tm)
+        self.ksnames = []
+        for i, (kind, opts) in enumerate(settings):
+            name = 'ks%d' % i
+            self.metadata.keyspaces[name] = KeyspaceMetadata(name, True, c26.SIMPLE if kind == 'simple' else c26.NTS, dict(opts))
+            self.ksnames.append(name)
+
+
 # ------------------------------------------------------------------------------------ oracle
 def prescribed(order, replicas, up, dist, child_plan):
     """the plan the statement prescribes.  order: the replicas as listed (ring order or permuted, may
@@ -197,15 +286,23 @@ def judge(part, got, first, rest, replicas, up, dist, tag, suffix, case):
 # ------------------------------------------------------------------------------------ exploration
 class Case(object):
     """one world (ring + layout) with its keyspaces, evaluated for many policy/state/key combinations"""
-    def __init__(self, seq, locs, settings):
+    def __init__(self, seq, locs, settings, tclass=None):
+        """tclass None: the Murmur3Partitioner ring of C26 (its lowest tokens) with one key strictly inside each range;
+        a partitioner name: the ring and routing keys of ring_and_keys()"""
         import cassandra.metadata as md
         self.seq, self.locs_t, self.settings = seq, locs, settings
-        self.w = c26.World(seq, locs, 'murmur3', settings)
+        self.tclass = tclass
+        self.w = c26.World(seq, locs, 'murmur3', settings) if tclass is None else PWorld(seq, locs, tclass, settings)
         w = self.w
         # a second keyspace with different replication, to tell a keyspace mix-up apart
         w.metadata.keyspaces['other'] = md.KeyspaceMetadata('other', True, c26.SIMPLE, {'replication_factor': '1'})
         n = len(seq)
-        self.keys = [w.query_keys[2 * i] for i in range(n)]          # one key inside each token range (first one: before the first token)
+        if tclass is None:
+            self.keys = [w.query_keys[2 * i] for i in range(n)]      # one key inside each token range (first one: before the first token)
+            self.key_kinds = None
+        else:
+            self.keys = [(t, k) for t, k, _ in w.routing_keys]
+            self.key_kinds = [kind for _, _, kind in w.routing_keys]
         self.plain_ok = {}
         self.ref = {}        # (setting index | 'other', key index) -> reference replicas (ordered)
         self.meta = {}       # same -> the metadata's own list object (cached by the token map)
@@ -219,13 +316,16 @@ class Case(object):
 
 
 def run_world(part, seq, locs, family, only=None):
-    """only = (child cfg, state, setting index, key index, shuffle flag) restricts the run to one point (replay)"""
+    """only = (child cfg, state, setting index, key index, shuffle flag) restricts the run to one point (replay); None for the
+    last three: every point of that (child, state) block, in the order of the full run (the wrapped RoundRobin policies
+    rotate their start position from plan to plan, so the wrapped plan of a point depends on the points before it)"""
     import cassandra.policies as pol
     from cassandra.query import SimpleStatement
     Scripted, Recorder = make_policies()
     per_dc = (sum(1 for d, _ in locs if d == 'dc0'), sum(1 for d, _ in locs if d == 'dc1'))
     settings = settings_for(per_dc)
-    c = Case(seq, locs, settings)
+    base_family, _, tclass = family.partition('/')      # 'real/<partitioner>': the partitioner family
+    c = Case(seq, locs, settings, tclass or None)
     w = c.w
     nh = w.nhosts
     names = w.names
@@ -244,7 +344,11 @@ def run_world(part, seq, locs, family, only=None):
     pol.shuffle = scripted_shuffle
     pol.randint = lambda a, b: a if b <= a else a + 1
     try:
-        if family == 'real':
+        if tclass:
+            # the partitioner decides only which hosts are the replicas: children, host states and shuffling are reduced
+            children = [('rr',), ('dca', 'dc0', 1 if ndcs > 1 else 0)]
+            states = [s_ for s_ in host_states(nh) if sum(1 for x in s_ if x != 'up') <= 1]
+        elif family == 'real':
             children = child_configs(ndcs)
             states = host_states(nh)
         else:
@@ -275,8 +379,8 @@ def run_world(part, seq, locs, family, only=None):
                         idx = [i for i in idx if dmap[i] != IGNORED]
                     inner = Scripted([hosts[i] for i in idx], dict((hosts[i], dmap[i]) for i in range(nh)))
                 rec = Recorder(inner)
-                for shuffle_flag in (False, True):
-                    if only is not None and shuffle_flag != only[4]:
+                for shuffle_flag in ((False,) if tclass else (False, True)):
+                    if only is not None and only[4] is not None and shuffle_flag != only[4]:
                         continue
                     tap = pol.TokenAwarePolicy(rec, shuffle_replicas=shuffle_flag)
                     tap.populate(cluster, [hosts[i] for i in by_dc])
@@ -288,14 +392,16 @@ def run_world(part, seq, locs, family, only=None):
                         raise HarnessError('unexpected distance %r' % (dist,))
                     for si in range(len(settings)):
                         for ki, (tok, key) in enumerate(c.keys):
-                            if only is not None and (si, ki) != (only[2], only[3]):
+                            if only is not None and only[2] is not None and (si, ki) != (only[2], only[3]):
                                 continue
                             eval_point(part, c, tap, rec, cfg, state, up, dist, si, ki, key, shuffle_flag, perm_cell,
                                        SimpleStatement, name_of, family)
                 # ---- the plan is a generator the request path consumes lazily: host state may change half way
-                if family == 'real' and only is None and sum(1 for x in state if x != 'up') <= 1 and 'down-unannounced' not in state:
+                if family == 'real' and not tclass and only is None and sum(1 for x in state if x != 'up') <= 1 and 'down-unannounced' not in state:
                     lazy_histories(part, c, pol, cluster, cfg, state, by_dc, SimpleStatement, Recorder, family)
         part.count('worlds')
+        if tclass:
+            part.count('partitioner_worlds')
     finally:
         pol.shuffle, pol.randint = orig_shuffle, orig_randint
 
@@ -633,7 +739,9 @@ def eval_point(part, c, tap, rec, cfg, state, up, dist, si, ki, key, shuffle_fla
     def case_of(mode, perm):
         return {'seq': list(c.seq), 'locs': [list(x) for x in c.locs_t], 'family': family, 'child': _listify(cfg), 'state': list(state),
                 'setting_index': si, 'setting': list(c.settings[si]), 'key_index': ki, 'shuffle': shuffle_flag,
-                'perm': list(perm) if perm is not None else None, 'mode': mode}
+                'perm': list(perm) if perm is not None else None, 'mode': mode,
+                'partitioner': c.tclass or 'murmur3', 'routing_key': key.hex(), 'reference_token': c26.token_string(c.tclass or 'murmur3', c.keys[ki][0]),
+                'key_kind': c.key_kinds[ki] if c.key_kinds else 'inside-range%d' % ki}
 
     tag = 'shuffle' if shuffle_flag else 'plain'
     plain_ok = True
@@ -659,18 +767,25 @@ def eval_point(part, c, tap, rec, cfg, state, up, dist, si, ki, key, shuffle_fla
         order = base_order if perm is None else [mnames[i] for i in perm]
         first, rest = prescribed(order, replicas, up, dist, child_plan)
         ok = judge(part, got, first, rest, replicas, up, dist,
-                   '/only-when-shuffling' if (shuffle_flag and got_plain_ok(part, c, si, ki, cfg, state)) else '', suffix, lambda: case_of('stmt', perm))
+                   '/only-when-shuffling' if (shuffle_flag and got_plain_ok(part, c, si, ki, cfg, state)) else
+                   ('/partitioner-%s' % c.tclass if c.tclass else ''), suffix, lambda: case_of('stmt', perm))
         if not shuffle_flag:
             plain_ok = ok
             c.plain_ok[(si, ki, cfg, state)] = ok
         part.count('evaluations')
+        if c.tclass:
+            kk = c.key_kinds[ki]
+            part.count('partitioner_plans')
+            part.count('partitioner_plans_%s_%s' % (c.tclass, kk.rsplit('/', 1)[1]))
+            part.outcome(('partitioner', c.tclass, kk.rsplit('/', 1)[1], 'on-token' if kk.startswith('on-token') else
+                          ('wrap-around' if kk.startswith('range0/') or kk.startswith('range%d/' % len(c.seq)) else 'inside'), ok))
         part.outcome((tag, len(first), len(rest), ok))
         if first and rest and (len(first) < len(replicas)):
             part.count('nontrivial_plans')
         if ok and perm is None and first and rest:
             part.sample({'ring': [[str(t), h] for t, h in w.ring], 'locs': w.locs, 'setting': c.settings[si], 'child': _listify(cfg),
                          'state': list(state), 'replicas': ref, 'child_plan': child_plan, 'plan': got}, limit=1)
-    if shuffle_flag or sum(1 for x in state if x != 'up') > 1 or 'down-unannounced' in state:
+    if c.tclass or shuffle_flag or sum(1 for x in state if x != 'up') > 1 or 'down-unannounced' in state:
         return
     # ---- where the keyspace comes from (unshuffled; all hosts up or exactly one announced down)
     oref = c.ref[('other', ki)]
@@ -723,6 +838,8 @@ def worlds(ctx):
                 for locs in c26.layouts(max(seq) + 1, max_dcs, 3):
                     out.append((fam, seq, locs))
                     if fam == 'real':
+                        for tclass in PARTITIONER_FAMILIES:
+                            out.append(('real/' + tclass, seq, locs))
                         # replication-change histories: one step everywhere, two steps on rings of <= 4 tokens (thorough: everywhere)
                         out.append(('history-deep' if (ctx.thorough or len(seq) <= 4) else 'history', seq, locs))
     return real, scripted, out
@@ -752,12 +869,19 @@ def run(ctx):
                        'replica list when shuffling) + 6 keyspace-source modes; every combination is distinct. non-trivial = plan with a non-empty '
                        'replica head, a non-empty tail and at least one replica filtered out of the head (down, REMOTE or IGNORED); for a plan inside a '
                        'replication-change history: requested after at least one change, non-empty head and tail.  history_worlds / histories / '
-                       'history_plans count the replication-change layer' % (real, scripted))
+                       'history_plans count the replication-change layer.  partitioner_worlds = (ring, layout, partitioner in %r) worlds with ring tokens '
+                       'spread over the whole token range; partitioner_plans = plans in them: settings x 2 children x (all up + single host down '
+                       'announced/unannounced) x routing keys (per token range incl. wrap-around one key per raw-hash half + one key on each ring token); '
+                       'partitioner_plans_<name>_half0/half1 = the same per partitioner and half of the raw hash range the routing key falls in; '
+                       'outcomes ("partitioner", name, hash half, inside/wrap-around/on-token, ok) show which combinations occurred'
+                       % (real, scripted, PARTITIONER_FAMILIES))
     ctx.cov['exhaustive'] = True
     ctx.assume('the wrapped policy\'s plan and its distance() answers are inputs: they are recorded through a transparent proxy, '
                'not predicted')
     ctx.assume('"ring order" for NetworkTopologyStrategy = the order in which Metadata.get_replicas lists the (correct) replicas; for '
                'SimpleStrategy it is the reference ring walk')
+    ctx.assume('the token of a routing key is the one Cassandra\'s partitioner computes (reference in vt.spec.partitioners: Murmur3Partitioner, '
+               'RandomPartitioner = abs(signed md5), ByteOrderedPartitioner = the key); routing keys are non-empty single-component keys')
     ctx.assume('randint used by RoundRobinPolicy/DCAwareRoundRobinPolicy.populate is fixed (start position 1 if possible)')
     ctx.assume('a statement without keyspace or routing key, or with a keyspace unknown to the metadata, has no known replicas: '
                'the wrapped plan is owed unchanged')
@@ -795,10 +919,11 @@ def replay(ctx, data):
         for fp, what, d in part.violations:
             print(fp, '::', what[:600])
         return bool(part.violations)
-    run_world(part, seq, locs, data['family'],
-              only=(data['child'], data['state'], data['setting_index'], data['key_index'], data['shuffle']))
+    run_world(part, seq, locs, data['family'], only=(data['child'], data['state'], None, None, None))
     if not part.counters.get('evaluations'):
         raise HarnessError('replay did not reach the recorded point')
-    for fp, what, d in part.violations:
+    same = [(fp, what, d) for fp, what, d in part.violations
+            if all(d.get(k) == data.get(k) for k in ('setting_index', 'key_index', 'shuffle', 'perm', 'mode'))]
+    for fp, what, d in same:
         print(fp, '::', what[:600])
-    return bool(part.violations)
+    return bool(same)
